@@ -66,7 +66,7 @@ var c16Errnos = map[string][]string{
 	"readdir": {"EACCES", "EIO"},
 	"rename":  {"EXDEV", "EACCES", "ENOSPC", "EIO"},
 	"getwd":   {"ENOENT"},
-	"stdout":  {"EPIPE", "ENOSPC"},
+	"stdout":  {"EPIPE", "ENOSPC", "EAGAIN", "EINTR"},
 	"stderr":  {"EPIPE"},
 	"other":   {"EIO", "EPERM"},
 }
